@@ -7,13 +7,16 @@ messages, the number of explored paths and the solver statistics.
 import sys, json, time, os, importlib, traceback
 
 def main():
-    jobs = json.loads(sys.stdin.read())
     from vlib import ctx
     sys.path.insert(0, ctx.REPO)
     from vlib import chpatch
     from crosshair.core import analyze_function, run_checkables, AnalysisOptionSet
     print("READY", flush=True)
-    for job in jobs:
+    for line in sys.stdin:            # one JSON job per line; the runner feeds the next job when a RESULT arrives
+        line = line.strip()
+        if not line:
+            continue
+        job = json.loads(line)
         o = job["obl"]
         t0 = time.time()
         out = {"id": o["id"], "mode": job["mode"], "messages": [], "error": None}
